@@ -34,7 +34,7 @@ def run(ctx):
     q = ctx.quick
     rnd = random.Random(ctx.seed)
     behs = []
-    for cfg, per_class in [("MC_quick.cfg", 2 if q else 6), ("MC_two.cfg", 6 if q else 30)]:
+    for cfg, per_class in [("MC_quick.cfg", 2 if q else 4), ("MC_two.cfg", 6 if q else 20)]:
         mc = ctx.tlc("compaction", "Compaction", cfg, workers=4, timeout=900)
         ctx.account(mc)
         by = {}
@@ -53,7 +53,7 @@ def run(ctx):
         ctx.account(big)
         ctx.log("MC_big: %d generated / %d distinct (%.0fs)" % (big.generated, big.distinct, big.wall))
     d = 40
-    sim = ctx.tlc("compaction", "Compaction", "SIM.cfg", simulate=(2 if q else 15), depth=d + 3, workers=4,
+    sim = ctx.tlc("compaction", "Compaction", "SIM.cfg", simulate=(2 if q else 10), depth=d + 3, workers=4,
                   constants={"MaxOps": d}, timeout=(150 if q else 900))
     ctx.account(sim)
     walks = [r["h"] for r in sim.emitted]
@@ -75,7 +75,7 @@ def run(ctx):
                 ctx.log("CORRUPTED behaviour %d step %d: first predicted sample of series %s dropped" % (k, st[0], s))
                 break
     inp = ctx.write_ndjson("behaviours.ndjson", behs)
-    gr = ctx.go_test("tsdb", ["c07_compaction_test.go"], "^TestVerifC07Compaction$", env={"VERIF_IN": inp})
+    gr = ctx.go_test("tsdb", ["c07_compaction_test.go"], "^TestVerifC07Compaction$", env={"VERIF_IN": inp}, timeout="60m")
     ctx.absorb(gr, label="C07 replay")
     ctx.assumptions += [
         "bounded model (see specs/compaction/*.cfg); larger alphabets only by seeded simulation",
